@@ -41,6 +41,8 @@ pub const TS_SNIPPETS: &[&str] = &[
   "console.log(console.log(1));",
   "bar(1, 2);",
   "if ((a == b) == c) {\n  foo(foo(1, 2), 3);\n}",
+  "// ast-grep-ignore: no-console\nconsole.log(2);",
+  "function later() {\n  foo(1, () => {\n    first();\n\n    second();\n  });\n}",
 ];
 
 pub const JS_SNIPPETS: &[&str] = &[
@@ -66,6 +68,8 @@ pub const JS_SNIPPETS: &[&str] = &[
   "bar(1, 2);",
   "if ((a == b) == c) {\n  foo(foo(1, 2), 3);\n}",
   "alert(123);",
+  "// ast-grep-ignore: no-console\nconsole.log(2);",
+  "function later() {\n  foo(1, () => {\n    first();\n\n    second();\n  });\n}",
 ];
 
 pub const PY_SNIPPETS: &[&str] = &[
@@ -281,6 +285,11 @@ pub const HASKELL_SNIPPETS: &[&str] = &[
   "main :: IO ()\nmain = putStrLn \"hello\"",
   "-- comment line",
   "z = 3",
+  "f =\n do a\n        b",
+  "g = do\n  x <- foo\n  bar x",
+  "h x = case x of\n  1 -> 2\n  _ -> 3",
+  "k = let\n    a = 1\n    b = 2\n  in a + b",
+  "m y = n y + 1\n  where\n    n v = v",
 ];
 
 pub const ELIXIR_SNIPPETS: &[&str] = &[
